@@ -700,7 +700,11 @@ class UTrenchColumn(TrenchColumn):
         # no-pillar case.
         t1, t2 = self._trench_list[0], self._trench_list[-1]
         tmp_rect = geometry.box(t1.xmin, t1.center[1], t2.xmax, t2.center[1])
-        tmp_bed = geometry.MultiPolygon([unary_union([t1.block, t2.block, tmp_rect])])
+        bed = unary_union([t1.block, t2.block, tmp_rect])
+        # with a single block the joining rectangle is degenerate and the union need not be one Polygon
+        tmp_bed = geometry.MultiPolygon(
+            [part for part in getattr(bed, 'geoms', [bed]) if isinstance(part, geometry.Polygon) and not part.is_empty]
+        )
 
         # Add pillars and define the bed layer as a Trench object
         xmin, ymin, xmax, ymax = tmp_bed.bounds
